@@ -43,7 +43,7 @@ let int_of_shex s =
    Observed: W -> one letter per byte, k (stored) or s (skipped); R -> two hex digits per byte,
    -- for a skipped one.  Returns the expanded ops, their observations, and for each expanded
    index the index of the harness op it comes from. *)
-let expand tag optoks obtoks =
+let expand ?(whole=false) tag optoks obtoks =
   let n = List.length optoks in
   let ptrs = Array.make (n + 1) 0 in
   let split_ob tok = match String.split_on_char ',' tok with
@@ -56,7 +56,9 @@ let expand tag optoks obtoks =
     match String.split_on_char ',' tok with
     | ["a"; sz] -> tag "alloc";
       (match parse_res r with RPtr p -> ptrs.(i) <- int_of_n p | _ -> ());
-      one (OAlloc (n_of_hex sz))
+      (* `sqr` cases: the property is evaluated for the guest that uses whole blocks (C28_whole_block) *)
+      let sz = n_of_hex sz in
+      one (OAlloc (if whole && int_of_n sz <= int_of_n max_alloc then rsz sz else sz))
     | ["f"; j; d] ->
       let d = int_of_shex d in
       tag (if d = 0 then "free" else if d land 7 <> 0 then "free-unaligned" else "free-offset");
@@ -91,7 +93,8 @@ let expand tag optoks obtoks =
 
 let check inp obs =
   match split_ws inp with
-  | "seq" :: hb :: pages :: max :: optoks ->
+  | (("seq" | "sqr") as kw) :: hb :: pages :: max :: optoks ->
+    let whole = (kw = "sqr") in
     let c = { c_hb = n_of_hex hb; c_pages = n_of_hex pages; c_max = n_of_hex max } in
     let n = List.length optoks in
     let obtoks = if obs = "-" then [] else split_ws obs in
@@ -101,7 +104,8 @@ let check inp obs =
     else begin
       let tags = Hashtbl.create 16 in
       let tag t = Hashtbl.replace tags t () in
-      let (ops, obsl, origin) = expand tag optoks obtoks in
+      if whole then tag "whole-block-guest";
+      let (ops, obsl, origin) = expand ~whole tag optoks obtoks in
       let otok i = List.nth optoks origin.(i) and btok i = List.nth obtoks origin.(i) in
       let impl = List.combine ops obsl in
       (* the property on the implementation's observables; locate the first failing step *)
@@ -185,11 +189,12 @@ let check inp obs =
    with the implementation's observations (Model.vm_case) *)
 let coq inp obs =
   match split_ws inp with
-  | "seq" :: hb :: pages :: max :: optoks ->
+  | (("seq" | "sqr") as kw) :: hb :: pages :: max :: optoks ->
+    let whole = (kw = "sqr") in
     let n = List.length optoks in
     let obtoks = if obs = "-" then [] else split_ws obs in
     if List.length obtoks <> n || n = 0 || n > 80 then None else begin
-      let (mops, obsl, _) = expand (fun _ -> ()) optoks obtoks in
+      let (mops, obsl, _) = expand ~whole (fun _ -> ()) optoks obtoks in
       if List.length mops > 160 then None else
       let ops = List.map (function
         | OAlloc sz -> "OAlloc " ^ coq_n sz | OFree p -> "OFree " ^ coq_n p
